@@ -18,6 +18,7 @@ EXPLANATION = (
     "objective), each exactly once, in all presence patterns and for every repetition pattern of up to 3 elitists (an archive may hold equal individuals). (R4) template-level placement of the best-update is checked with the "
     "template interpreter (see C16). (INIT) init() evaluated with every field of self a distinct symbol inserts exactly the state types of a reviewed table, under the component's own instantiation, each built from exactly the documented field or empty / zero. (R7) two individuals are equal iff solution and objective are equal (what `already there` rests on). NOT decided: `reported best = minimum the objective returned during a run` as a "
     "number over whole runs.")
+EXPLANATION += " " + '(R2/R5 revised) BestIndividualUpdate / ElitistArchiveUpdate / ElitistArchiveIntoPopulation run on the real population stack (a better individual sits in the population underneath) with their state as cells of the typed store: the recorded best / the archive afterwards is what the CURRENT population prescribes.'
 ASSUMPTIONS = ["sort_unstable_by_key / min_by_key behave as documented"]
 
 IND = "mahf::problems::individual::Individual"
